@@ -619,6 +619,78 @@ func (e *Engine) structural(fn *ssa.Function, dir string) *Obligation {
 		if hasMeasure {
 			o.Detail = "only direct recursion, under the decreases measure checked at the recursive call"
 		}
+	case len(f) == 2 && f[0] == "grows-only":
+		// `structure grows-only T.f`: the set held in field f of T only ever grows — in the whole package no function
+		// deletes from a map read from that field, and the field itself is assigned only a freshly made (empty) map.
+		// Together with an assertion that a recursion is entered only after a key that was absent has been inserted,
+		// this bounds the recursion by the number of distinct keys (the finiteness of the key universe is an assumption).
+		parts := strings.SplitN(f[1], ".", 2)
+		if len(parts) != 2 {
+			o.Detail = "grows-only needs Type.field"
+			return o
+		}
+		fromField := func(v ssa.Value) bool {
+			// v is (a load of) the field f of a T
+			if u, ok := v.(*ssa.UnOp); ok {
+				v = u.X
+			}
+			fa, ok := v.(*ssa.FieldAddr)
+			if !ok {
+				return false
+			}
+			st, ok := fa.X.Type().Underlying().(*types.Pointer)
+			if !ok {
+				return false
+			}
+			nt, ok := st.Elem().(*types.Named)
+			if !ok || nt.Obj().Name() != parts[0] {
+				return false
+			}
+			return nt.Underlying().(*types.Struct).Field(fa.Field).Name() == parts[1]
+		}
+		pkgPath := fn.Pkg.Pkg.Path()
+		for _, g := range e.allFunctions(pkgPath) {
+			for _, b := range g.Blocks {
+				for _, in := range b.Instrs {
+					switch x := in.(type) {
+					case *ssa.Call:
+						if bi, ok := x.Call.Value.(*ssa.Builtin); ok && bi.Name() == "delete" && fromField(x.Call.Args[0]) {
+							o.Detail = "delete from the set in " + e.shortName(g)
+							return o
+						}
+						if bi, ok := x.Call.Value.(*ssa.Builtin); ok && bi.Name() == "clear" && fromField(x.Call.Args[0]) {
+							o.Detail = "clear of the set in " + e.shortName(g)
+							return o
+						}
+						if sc := x.Call.StaticCallee(); sc != nil {
+							for _, a := range x.Call.Args {
+								if fromField(a) && sc.Name() != "Contains" && sc.Name() != "Insert" {
+									o.Detail = "the set is handed to " + e.shortName(sc) + " in " + e.shortName(g) + " (only Contains / Insert are known not to shrink it)"
+									return o
+								}
+							}
+						} else if _, isB := x.Call.Value.(*ssa.Builtin); !isB {
+							for _, a := range x.Call.Args {
+								if fromField(a) {
+									o.Detail = "the set is handed to an unknown callee in " + e.shortName(g)
+									return o
+								}
+							}
+						}
+					case *ssa.Store:
+						if fa, ok := x.Addr.(*ssa.FieldAddr); ok && fromField(fa) {
+							// allowed: a fresh empty map while the field is nil (lazy initialisation) or in a constructor
+							if _, isMake := x.Val.(*ssa.MakeMap); !isMake {
+								o.Detail = "the field is assigned something other than a fresh map in " + e.shortName(g)
+								return o
+							}
+						}
+					}
+				}
+			}
+		}
+		o.Status = "proved"
+		o.Detail = "no delete / clear / re-assignment of the set anywhere in the package"
 	case len(f) == 1 && f[0] == "no-channel-ops":
 		// the function synchronises only through the mutex / errgroup named in its contract: no channel send,
 		// receive, select or close — each of which could block a path that the error-propagation obligations assume returns
